@@ -11,7 +11,7 @@ pub const RULE: &str = "case = one valid base file (generated with 1..3 records,
 pub const REQUIRED: &[&str] = &[
     "reader.jaspar", "reader.jaspar16", "reader.transfac", "reader.uniprobe", "reader.protein", "input.empty",
     "input.prefix", "input.substitution", "input.deletion", "input.insertion", "input.multibyte_insertion", "input.framing", "input.no_final_newline",
-    "input.ragged", "input.long_line", "input.repetition", "input.repetition_after_record", "input.tag_sweep", "input.header_only", "input.matrix_only", "input.huge_number", "input.duplicate_symbol",
+    "input.ragged", "input.long_line", "input.repetition", "input.repetition_after_record", "input.invalid_utf8_after_record", "input.tag_sweep", "input.header_only", "input.matrix_only", "input.huge_number", "input.duplicate_symbol",
     "input.random_bytes", "input.invalid_utf8", "outcome.error", "outcome.records", "schedule.chunked",
     "schedule.cursor", "cross_format",
 ];
@@ -475,6 +475,33 @@ fn fixed_inputs(case: u64, rng: &mut Rng, rep: &mut Report) {
             feed(&mut worker, case, rng, rep, format, false, input, class, "fixed");
             if format != Format::Jaspar {
                 feed(&mut worker, case, rng, rep, format, true, input, class, "fixed");
+            }
+        }
+    }
+    // runs of bytes that are not UTF-8 after a complete record (and before the next one)
+    {
+        let records: [(&[u8], Format); 4] = [
+            (b">w\nA [1 2]\nC [1 2]\nG [1 2]\nT [1 2]\n", Format::Jaspar16),
+            (b">w\n1 2\n1 2\n1 2\n1 2\n", Format::Jaspar),
+            (b"AC x\nXX\nP0      A      C      G      T\n01 1 2 3 4 N\nXX\n//\n", Format::Transfac),
+            (b"w\nA:\t0.25\t0.25\nC:\t0.25\t0.25\nG:\t0.25\t0.25\nT:\t0.25\t0.25\n", Format::Uniprobe),
+        ];
+        for (rec, format) in records.iter() {
+            for junk in [&b"\xff"[..], b"\x80", b"\xc3", b"\xe2\x82", b"\xf0\x9f\x98"] {
+                for &n in [1usize, 5, 20, 60, 200].iter() {
+                    for tail in [false, true] {
+                        let mut input = rec.to_vec();
+                        for _ in 0..n {
+                            input.extend_from_slice(junk);
+                        }
+                        if tail {
+                            input.extend_from_slice(b"\n");
+                            input.extend_from_slice(rec);
+                        }
+                        rep.cover("input.invalid_utf8_after_record");
+                        feed(&mut worker, case, rng, rep, *format, false, &input, "invalid_utf8", "fixed");
+                    }
+                }
             }
         }
     }
